@@ -209,6 +209,10 @@ type blockEntry struct {
 	supp     consensus.V1BlockSupplement
 	stateEnc []byte // encoding of state at first apply (C06/C09: re-apply must match)
 	diffSig  string // digest of the diffs at first apply
+	// C06: what the last application reported and what the store held before
+	applyDiffs      [4][]string
+	preStore        string
+	preStoreNoProof string
 }
 
 // PoolTxn is a mempool entry.
